@@ -341,7 +341,7 @@ const cTol = 50.0
 // argument error of the twiddle tables); a general-radix pass of prime radix
 // p > 5 sums p terms (p*eps). In loose mode (strict == false) the bound also
 // admits the error of the rotation recurrences by which FFTPACK's
-// radfg/radbg/passfg generate the radix-p twiddles: a rotation recurrence of
+// radfg/radbg (real FFT) generate the radix-p twiddles: a rotation recurrence of
 // up to p/2 steps whose rotation is itself the result of a recurrence of up
 // to p/2 steps, (p^2+1.5p)*eps, taken with a factor two.
 func tolUnits(m int, strict bool) float64 {
